@@ -613,7 +613,18 @@ func emitC07Dec(e *Emitter, kind, tag string, data []byte) {
 		ast = sb.String()
 	}
 	in := fmt.Sprintf("(%s %s %s)", kind, hexStr(string(data)), ast)
-	e.pending("C07.dec", in)
+	// every seventh document is decoded while geojson.DefaultLayout (the layout given to a geometry
+	// without positions) holds another value than XY
+	c07DecCount++
+	op := "C07.dec"
+	if c07DecCount%7 == 0 {
+		dl := []geom.Layout{geom.XYZ, geom.XYZM, geom.XYZ, geom.XY}[c07DecCount/7%4]
+		in = fmt.Sprintf("(%d %s %s %s)", int(dl), kind, hexStr(string(data)), ast)
+		op = "C07.decdl"
+		geojson.DefaultLayout = dl
+		defer func() { geojson.DefaultLayout = geom.XY }()
+	}
+	e.pending(op, in)
 	out := decodeKind(kind, data)
 	cls := "err"
 	if strings.HasPrefix(out, "(ok") {
@@ -622,8 +633,10 @@ func emitC07Dec(e *Emitter, kind, tag string, data []byte) {
 		cls = "panic"
 	}
 	e.tally("dec/" + kind + "/" + tag + "/" + cls)
-	e.emit("C07.dec", in, out)
+	e.emit(op, in, out)
 }
+
+var c07DecCount int
 
 func genC07(r *Rng, e *Emitter, n int) {
 	corpus := []struct{ kind, doc string }{
@@ -733,7 +746,18 @@ func genC07(r *Rng, e *Emitter, n int) {
 				})
 			}
 			in := t.sx()
-			e.pending("C07.geom", in)
+			op := "C07.geom"
+			if r.chance(1, 5) {
+				// the caller has set geojson.DefaultLayout: a geometry without positions comes back with it
+				dl := []geom.Layout{geom.XY, geom.XYZ, geom.XYZM}[r.Intn(3)]
+				if r.chance(1, 2) && (t.layout == geom.XYZ || t.layout == geom.XYZM) {
+					dl = t.layout
+				}
+				op, in = "C07.geomdl", fmt.Sprintf("(%d %s)", int(dl), in)
+				geojson.DefaultLayout = dl
+				e.tally(fmt.Sprintf("default-layout=%d", int(dl)))
+			}
+			e.pending(op, in)
 			var text []byte
 			out := guard(func() string {
 				g := t.build()
@@ -771,9 +795,10 @@ func genC07(r *Rng, e *Emitter, n int) {
 				return "(ok " + sxRaw(g3) + ")"
 			})
 			e.tally("geom/" + t.kind + "/" + fmt.Sprint(int(t.layout)))
-			e.emit("C07.geom", in, "(m ((text "+hexStr(string(text))+") (ed "+ed+")) "+out+")")
+			geojson.DefaultLayout = geom.XY
+			e.emit(op, in, "(m ((text "+hexStr(string(text))+") (ed "+ed+")) "+out+")")
 			// the returned document is kept: a later Marshal may not change it
-			e.watch("C07.geom", in, func() string { return "(m ((text " + hexStr(string(text)) + ") (ed " + ed + ")) " + out + ")" })
+			e.watch(op, in, func() string { return "(m ((text " + hexStr(string(text)) + ") (ed " + ed + ")) " + out + ")" })
 		case 3, 4:
 			fi := r.gjFeature()
 			e.pending("C07.feat", fi.sx)
